@@ -7,6 +7,8 @@ COMMON_STUBS = [
     "std::backtrace::Backtrace::capture -> disabled; alloc::fmt::format -> empty String",
     "core::panicking::panic_nounwind{,_fmt} -> plain panic",
     "foyer_common::error::Error::{new,with_context,with_source} -> same ErrorKind, no message/context/source/backtrace",
+    "std::alloc::dealloc -> no-op (memory is leaked; use-after-free is not visible in these harnesses)",
+    "foyer_common::metrics::Metrics::noop -> Metrics::verif_noop (the same struct built directly from no-op metric objects)",
 ]
 MEMORY_STUBS = COMMON_STUBS + ["mixtrics::metrics::Buckets::{exponential,linear} -> empty Vec (no-op metrics registry)"]
 STORAGE_STUBS = COMMON_STUBS + [
@@ -17,7 +19,7 @@ TAKE_STUB = "InflightManager::take -> None (harness never enqueues a fetch, the 
 
 TRUSTED_BASE = [
     "rustc MIR -> kani-compiler 0.68 codegen -> CBMC 6.11 symbolic execution -> CaDiCaL",
-    "CBMC flags: --max-field-sensitivity-array-size 2048, vtable restriction (-Z restrict-vtable), unwinding assertions ON",
+    "CBMC flags: --max-field-sensitivity-array-size 2048 (per harness: coverage.samples[*].field_sensitivity), vtable restriction (-Z restrict-vtable, per harness), --no-assertion-reach-checks, --no-memory-safety-checks, unwinding assertions ON",
     "the stub set listed per harness (coverage.samples[*].stubs)",
     "harness-side instantiation types (IdHasher, VecIndexer, HProps, recording listener/pipe, in-memory IoEngine) are type arguments of foyer's own generics, not models of foyer",
     "native replay: cargo kani playback of the same harness against the real code without stubs (dev + release)",
@@ -41,7 +43,7 @@ def h(prop, crate, module, name, obligation, functions, bounds, quick=True, tq=3
 def stubs_for(hh):
     if hh.get("stubs") is not None:
         return hh["stubs"]
-    return {"foyer-common": COMMON_STUBS[2:], "foyer-memory": MEMORY_STUBS, "foyer-storage": STORAGE_STUBS, "foyer": MEMORY_STUBS}[hh["crate"]]
+    return {"foyer-common": COMMON_STUBS[2:6], "foyer-memory": MEMORY_STUBS, "foyer-storage": STORAGE_STUBS, "foyer": MEMORY_STUBS}[hh["crate"]]
 
 
 def by_property():
